@@ -54,10 +54,9 @@ struct node pool[NN];
 #define NPTR(i) ((uintptr_t)((i) + 1) << 6)
 
 /* ---- ghost state ---- */
-unsigned g_released, g_get_count, g_del_total, g_alloc_count, g_delete_count, g_fresh, g_trk_del, g_valdel;
+unsigned g_released, g_get_count, g_del_total, g_alloc_count, g_delete_count, g_fresh, g_valdel;
 uintptr_t g_get_val, g_trk_val, g_last_alloc;
-void* g_last_load_addr; void* g_trk_addr;
-_Bool g_alloc_may_fail, g_dtor_stub, g_del_unattributed;
+_Bool g_alloc_may_fail, g_dtor_stub;
 
 /* ---- guard_ptr contract stubs ---- */
 uintptr_t it_guard; _Bool it_acquired; uint64_t it_acq_clock;
@@ -72,7 +71,7 @@ unsigned it_reclaims; uintptr_t it_reclaimed;
 /* ---- monitors ---- */
 struct ramq* mon_q;
 /* per-iteration event records (reset at the loop head by XV_HAVOC_*) */
-unsigned it_ticket; _Bool it_ticket_drawn; uintptr_t it_ticket_node;
+unsigned it_idx; _Bool it_ticket_drawn;   /* counter value returned by the fetch_add of this iteration */
 uintptr_t it_next_val; _Bool it_next_loaded;
 _Bool it_link_tried, it_link_ok; uintptr_t it_link_desired;
 _Bool it_entry_cas, it_entry_cas_ok, it_entry_xchg; uintptr_t it_entry_seen; void* it_entry_addr;
@@ -83,7 +82,7 @@ uintptr_t g_raw;          /* the value being pushed (INT runs) */
 
 
 /* ---- prototypes of everything the lowered text calls (definitions follow the include: they use the extracted constants) ---- */
-static struct node* node_at(uintptr_t w);
+static unsigned node_idx(uintptr_t w);
 static void g_reclaim(uintptr_t g);
 static optval TR_get(uintptr_t raw);
 static void TR_delete_value(uintptr_t raw);
@@ -94,7 +93,9 @@ static optval stub_pop(struct ramq* self);
 static _Bool is_nptr(uintptr_t w);
 static unsigned nidx(uintptr_t w);
 #define XV_POP(self) stub_pop(self)
-#define GDEREF(g) node_at(g)
+/* a case split over the pool elements: cbmc then reads/writes only the field concerned of each candidate node */
+#define NODE_P(i) ((i) == 0 ? &pool[0] : (i) == 1 ? &pool[1] : (i) == 2 ? &pool[2] : &pool[3])
+#define GDEREF(g) NODE_P(node_idx(g))
 #define XV_INIT_pop_idx(self, v) ((self)->pop_idx = (v))
 #define XV_INIT_push_idx(self, v) ((self)->push_idx = (v))
 #define XV_INIT_next(self, v) ((self)->next = (v))
@@ -116,22 +117,19 @@ static void havoc_shared(void);
 /* ---- node pointers ---- */
 static _Bool is_nptr(uintptr_t w) { return w != 0 && (w & 63) == 0 && (w >> 6) <= NN; }
 static unsigned nidx(uintptr_t w) { return (unsigned)(w >> 6) - 1; }
-static struct node* node_at(uintptr_t w) {
-  _Bool ok = is_nptr(w) && pool[nidx(w) % NN].g_live;
-  XV_OBL("ram.node.live_deref", ok);
+static unsigned node_idx(uintptr_t w) {
+  _Bool ok = is_nptr(w) && NODE_P(nidx(w))->g_live;
+  XV_OBL("ram.node.live_deref", ok);        /* every node that is dereferenced is allocated and has not been deleted */
   XV_ASSUME(ok);
-  return &pool[nidx(w)];
+  return nidx(w);
 }
-static void g_reclaim(uintptr_t g) { node_at(g)->g_retired++; it_reclaims++; it_reclaimed = g; }
+static void g_reclaim(uintptr_t g) { NODE_P(node_idx(g))->g_retired++; it_reclaims++; it_reclaimed = g; }
 
 static optval TR_get(uintptr_t raw) { g_get_count++; g_get_val = raw; return (optval){1, raw}; }
 static void TR_delete_value(uintptr_t raw) {
   if (raw == 0) return;                                 /* unique_ptr<T>{nullptr}: nothing destroyed */
   g_del_total++;
   if (raw == g_trk_val) g_valdel++;
-  /* attribute the destruction to the entry the value was just read from */
-  if (g_last_load_addr == 0 || MV_get(*(marked_value*)g_last_load_addr) != raw) g_del_unattributed = 1;
-  if (g_last_load_addr == g_trk_addr) g_trk_del++;
 }
 
 /* ---- new / delete of nodes: pool allocation running the REAL lowered constructor / destructor ---- */
@@ -144,37 +142,44 @@ static marked_ptr XV_NEW_NODE(raw_value_type item) {
   XV_MODEL_ASSERT("pool large enough", g_fresh < NN && !pool[g_fresh % NN].g_live);
   XV_ASSUME(g_fresh < NN);
   unsigned i = g_fresh++;
-  havoc_words(&pool[i]);                              /* uninitialised storage */
-  pool[i].g_live = 1; pool[i].g_retired = 0; pool[i].g_deleted = 0;
-  ram_node_ctor(&pool[i], item);
+  /* one call site per pool element keeps `self` a constant pointer */
+  for (unsigned c = 0; c < NN; c++) if (c == i) {
+    havoc_words(&pool[c]);                            /* uninitialised storage */
+    pool[c].g_live = 1; pool[c].g_retired = 0; pool[c].g_deleted = 0;
+    ram_node_ctor(&pool[c], item);
+  }
   g_alloc_count++; g_last_alloc = NPTR(i);
   return NPTR(i);
 }
 static void XV_DELETE_NODE(marked_ptr w) {
-  struct node* n = node_at(w);
-  if (!g_dtor_stub) ram_node_dtor(n);
-  n->g_live = 0; n->g_deleted++; g_delete_count++;
+  unsigned i = node_idx(w);
+  for (unsigned c = 0; c < NN; c++) if (c == i) {
+    if (!g_dtor_stub) ram_node_dtor(&pool[c]);
+    pool[c].g_live = 0; pool[c].g_deleted++;
+  }
+  g_delete_count++;
 }
 
 static _Bool in_pool(void* a) { return (char*)a >= (char*)&pool[0] && (char*)a < (char*)&pool[NN]; }
 #ifdef XV_INT
+/* the entry belonging to the counter value drawn in this iteration (the slot map itself is decided by ram.idx.injective and the SEQ runs) */
+#define IT_HAS_TICKET (it_acquired && it_ticket_drawn && it_idx < max_idx)
+#define IT_ENTRY(g) ((void*)&(g)->entries[it_idx % XV_E].value)
 static void mon_load(void* addr, uint64_t v, int o) {
-  g_last_load_addr = addr;
   if (!it_acquired) return;
   struct node* g = &pool[nidx(it_guard) % NN];
   if (addr == (void*)&g->next) { it_next_val = v; it_next_loaded = 1; }
-  if (it_ticket_drawn && it_ticket < XV_E && addr == (void*)&g->entries[(it_ticket * XV_STEP) % XV_E].value) { it_entry_seen = v; it_entry_addr = addr; }
+  if (IT_HAS_TICKET && addr == IT_ENTRY(g)) { it_entry_seen = v; it_entry_addr = addr; }
 }
 static void mon_store(void* addr, uint64_t v, int o) { }
 static void mon_rmw(void* addr, uint64_t oldv, uint64_t newv, int o) {
   struct node* g = &pool[nidx(it_guard) % NN];
   if (addr == (void*)&g->push_idx || addr == (void*)&g->pop_idx) {
-    XV_OBL("ram.int.ticket", it_acquired && !it_ticket_drawn && newv == oldv + XV_STEP);
-    it_ticket_drawn = 1; it_ticket = (unsigned)(oldv / XV_STEP); it_ticket_node = it_guard;
+    XV_OBL("ram.int.ticket", it_acquired && !it_ticket_drawn && newv == oldv + XV_STEP);   /* one ticket per iteration, from the protected node */
+    it_ticket_drawn = 1; it_idx = (unsigned)oldv;
   } else {
     /* the only other RMW is pop's exchange on the entry of its ticket */
-    _Bool mine = it_acquired && it_ticket_drawn && it_ticket < XV_E && addr == (void*)&g->entries[(it_ticket * XV_STEP) % XV_E].value;
-    XV_OBL("ram.pop.commit", mine && newv == INVALID);
+    XV_OBL("ram.pop.commit", IT_HAS_TICKET && addr == IT_ENTRY(g) && newv == INVALID && XV_IS_ACQUIRE(o));
     it_entry_xchg = 1; it_entry_seen = oldv; it_entry_addr = addr;
   }
 }
@@ -188,58 +193,66 @@ static void mon_cas(void* addr, uint64_t e, uint64_t d, _Bool ok, int o) {
   } else if (addr == (void*)&mon_q->_head) {
     it_head_cas++; it_head_cas_ok = ok;
     XV_OBL("ram.pop.commit", it_acquired && e == it_guard && it_next_loaded && d == it_next_val && d != 0 && XV_IS_RELEASE(o)
-           && it_ticket_drawn && it_ticket >= XV_E);
+           && it_ticket_drawn && it_idx >= max_idx);
   } else if (in_pool(addr) && it_acquired && addr == (void*)&g->next) {
     /* link a new node behind the protected tail node */
     XV_OBL("ram.push.commit", !it_link_tried && e == 0 && d == g_last_alloc && g_alloc_count == g_delete_count + 1 && XV_IS_RELEASE(o)
-           && it_ticket_drawn && it_ticket >= XV_E
+           && it_ticket_drawn && it_idx >= max_idx
            && pool[nidx(d) % NN].entries[0].value == g_raw && pool[nidx(d) % NN].next == 0);
     it_link_tried = 1; it_link_ok = ok; it_link_desired = d;
   } else {
     /* store the value into the entry of the ticket just drawn */
-    _Bool mine = it_acquired && it_ticket_drawn && it_ticket < XV_E && addr == (void*)&g->entries[(it_ticket * XV_STEP) % XV_E].value;
-    XV_OBL("ram.push.commit", mine && !it_entry_cas && e == 0 && d == g_raw && XV_IS_RELEASE(o));
+    XV_OBL("ram.push.commit", IT_HAS_TICKET && addr == IT_ENTRY(g) && !it_entry_cas && e == 0 && d == g_raw && XV_IS_RELEASE(o));
     it_entry_cas = 1; it_entry_cas_ok = ok;
   }
 }
 #else
-static void mon_load(void* addr, uint64_t v, int o) { g_last_load_addr = addr; }
+static void mon_load(void* addr, uint64_t v, int o) { }
 static void mon_store(void* addr, uint64_t v, int o) { }
 static void mon_rmw(void* addr, uint64_t oldv, uint64_t newv, int o) { }
 static void mon_cas(void* addr, uint64_t e, uint64_t d, _Bool ok, int o) { }
 #endif
+
 /* ---- specification-level definitions ---- */
-static unsigned spec_slot(unsigned k) { return (k * XV_STEP) % XV_E; }      /* ticket -> entry; injective by ram.idx.injective */
-#define MAXT ((unsigned)1 << 27)                                              /* assumption: ticket counters below 2^27 (no 32-bit wrap) */
-static unsigned tickets(unsigned idx) { return idx / XV_STEP; }
-/* representation invariant of one node (what concurrent pushes/pops can leave behind at any instant) */
-static _Bool node_inv(const struct node* n) {
-  if (n->push_idx % XV_STEP != 0 || n->pop_idx % XV_STEP != 0) return 0;
-  if (tickets(n->push_idx) >= MAXT || tickets(n->pop_idx) >= MAXT) return 0;
-  if (n->next != 0 && !(is_nptr(n->next) && tickets(n->push_idx) >= XV_E)) return 0;      /* a successor is appended only to a full node */
+/* ticket -> entry (injective by ram.idx.injective); written as a table so that a symbolic ticket costs no divider */
+static unsigned spec_slot(unsigned k) { for (unsigned c = 0; c < XV_E; c++) if (k == c) return (c * XV_STEP) % XV_E; return 0; }
+#define MAXT ((unsigned)1 << 27)         /* assumption: fewer than 2^27 tickets per node (no wrap of the 32-bit counters) */
+#define BAD_T 100000u
+/* ticket-level view of the pre-state: push_idx = pre_pt * step_size, pop_idx = pre_qt * step_size */
+unsigned pre_pt[NN], pre_qt[NN];
+/* representation invariant of one node (what concurrent pushes/pops can leave behind at any instant), pt/qt = tickets handed out */
+static _Bool node_inv(const struct node* n, unsigned pt, unsigned qt) {
+  if (pt >= MAXT || qt >= MAXT || n->push_idx != pt * XV_STEP || n->pop_idx != qt * XV_STEP) return 0;
+  if (n->next != 0 && !(is_nptr(n->next) && pt >= XV_E)) return 0;      /* a successor is appended only to a full node */
   for (unsigned k = 0; k < XV_E; k++) {
     marked_value w = n->entries[spec_slot(k)].value;
     if (!IS_ENTRY_WORD(w)) return 0;
-    if (k >= tickets(n->push_idx) && IS_VALUE(w)) return 0;      /* values only at tickets already handed to a producer */
-    if (w == INVALID && k >= tickets(n->pop_idx)) return 0;      /* invalidated only by the consumer holding that ticket */
+    if (k >= pt && IS_VALUE(w)) return 0;            /* values only at tickets already handed to a producer */
+    if (w == INVALID && k >= qt) return 0;           /* invalidated only by the consumer holding that ticket */
   }
   return 1;
 }
-static void havoc_node(struct node* n) {
-  havoc_words(n); n->g_live = 1; n->g_retired = 0; n->g_deleted = 0;
-  XV_ASSUME(node_inv(n));
+static void havoc_node(unsigned i) {
+  havoc_words(&pool[i]); pool[i].g_live = 1; pool[i].g_retired = 0; pool[i].g_deleted = 0;
+  pre_pt[i] = nondet_uint(); pre_qt[i] = nondet_uint();
+  XV_ASSUME(node_inv(&pool[i], pre_pt[i], pre_qt[i]));
+}
+static void dead_node(unsigned i) { havoc_words(&pool[i]); pool[i].g_live = 0; pool[i].g_retired = 0; pool[i].g_deleted = 0; }
+/* number of tickets drawn from a counter by one operation (it draws at most entries_per_node + 1, the environment of the roll-back run one more) */
+static unsigned drawn(unsigned pre_idx, unsigned post_idx) {
+  for (unsigned d = 0; d <= XV_E + 3; d++) if (post_idx == pre_idx + d * XV_STEP) return d;
+  return BAD_T;
 }
 /* first ticket >= the push ticket whose entry is still free (XV_E if none) */
-static unsigned first_free(const struct node* n) {
-  for (unsigned k = 0; k < XV_E; k++) if (k >= tickets(n->push_idx) && n->entries[spec_slot(k)].value == 0) return k;
+static unsigned first_free(const struct node* n, unsigned pt) {
+  for (unsigned k = 0; k < XV_E; k++) if (k >= pt && n->entries[spec_slot(k)].value == 0) return k;
   return XV_E;
 }
 static void reset_ghost(void) {
-  g_released = 0; g_get_count = 0; g_del_total = 0; g_alloc_count = 0; g_delete_count = 0; g_trk_del = 0; g_valdel = 0;
-  g_get_val = nondet_uptr(); g_trk_val = 0; g_last_alloc = 0; g_last_load_addr = 0; g_trk_addr = 0; g_alloc_may_fail = 0; g_dtor_stub = 0;
-  g_del_unattributed = 0; xv_threw = 0; IT_RESET; it_guard = 0;
+  g_released = 0; g_get_count = 0; g_del_total = 0; g_alloc_count = 0; g_delete_count = 0; g_valdel = 0;
+  g_get_val = nondet_uptr(); g_trk_val = 0; g_last_alloc = 0; g_alloc_may_fail = 0; g_dtor_stub = 0;
+  xv_threw = 0; IT_RESET; it_guard = 0;
 }
-
 unsigned in_e, in_pop_t, in_push_t, in_gk;
 
 /* =========================== ram.idx.injective =========================== */
@@ -258,7 +271,7 @@ void h_idx(void) {
   i = kj * step_size; b_dt = XV_DTOR_SLOT_EXPR;
   XV_OBL("ram.idx.injective", a_push < XV_E && a_pop < XV_E && a_dt < XV_E);
   XV_OBL("ram.idx.injective", a_push == a_pop && a_push == a_dt);            /* producer, consumer and destructor agree on the entry of a ticket */
-  XV_OBL("ram.idx.injective", a_push == spec_slot(ki));                       /* and it is the map the other harnesses use as specification */
+  XV_OBL("ram.idx.injective", a_push == (ki * XV_STEP) % XV_E);               /* and it is the map the other harnesses use as specification */
   if (ki != kj) {
     XV_OBL("ram.idx.injective", a_push != b_push && a_pop != b_pop && a_dt != b_dt);
 #if XV_E > 1
@@ -279,8 +292,8 @@ void h_node_ctor(void) {
   XV_OBL("ram.node_ctor.prefilled", n.entries[0].value == item && n.pop_idx == 0 && n.push_idx == step_size && n.next == 0);
   for (unsigned s = 1; s < XV_E; s++) XV_OBL("ram.node_ctor.prefilled", n.entries[s].value == 0);
   XV_OBL("ram.node_ctor.prefilled", spec_slot(0) == 0);      /* the pre-filled entry is the entry of ticket 0 */
-  if (item != 0) XV_OBL("ram.inv.preserved", node_inv(&n));
-  XV_CANARY("node_ctor.reached");
+  XV_OBL("ram.inv.preserved", node_inv(&n, 1, 0));
+  if (item != 0) XV_CANARY("node_ctor.reached");
 }
 
 /* =========================== node destructor (C07) =========================== */
@@ -290,20 +303,20 @@ void h_node_ctor(void) {
 void h_node_dtor(void) {
   reset_ghost();
   in_e = XV_E;
-  struct node* n = &pool[0]; havoc_node(n);
-  in_pop_t = tickets(n->pop_idx); in_push_t = tickets(n->push_idx);
+  struct node* n = &pool[0]; havoc_node(0);
+  in_pop_t = pre_qt[0]; in_push_t = pre_pt[0];
 #ifdef XV_DTOR_BOUNDED
   XV_ASSUME(in_pop_t <= XV_E + XV_OV && in_push_t <= XV_E + XV_OV);
 #endif
   in_gk = nondet_uint(); XV_ASSUME(in_gk < XV_E);
   unsigned s = spec_slot(in_gk);
   marked_value w = n->entries[s].value;
-  g_trk_addr = &n->entries[s].value;
+  /* ~node's control flow does not depend on the values (only on null / non-null), so distinct values lose nothing: count destructions of w */
+  if (IS_VALUE(w)) { g_trk_val = w; for (unsigned o = 0; o < XV_E; o++) if (o != s) XV_ASSUME(n->entries[o].value != w); }
   /* the queue owns the value of ticket gk iff the ticket was handed to a producer, not yet to a consumer, and holds a value */
   _Bool owned = in_gk >= in_pop_t && in_gk < in_push_t && IS_VALUE(w);
   ram_node_dtor(n);
-  XV_OBL("ram.node_dtor.owned_only", g_trk_del == (owned ? 1u : 0u));
-  XV_OBL("ram.node_dtor.owned_only", !g_del_unattributed);
+  XV_OBL("ram.node_dtor.owned_only", g_valdel == (owned ? 1u : 0u));      /* destroyed exactly once if owned, never otherwise */
   XV_OBL("ram.node_dtor.owned_only", n->entries[s].value == w && n->pop_idx == in_pop_t * XV_STEP && n->push_idx == in_push_t * XV_STEP);
   if (owned) XV_CANARY("node_dtor.owned");
   if (!owned && IS_VALUE(w) && in_gk < in_pop_t) XV_CANARY("node_dtor.consumed");
@@ -314,23 +327,23 @@ void h_node_dtor(void) {
 /* =========================== queue constructor / destructor =========================== */
 void h_ctor(void) {
   reset_ghost();
-  for (unsigned i = 0; i < NN; i++) { havoc_words(&pool[i]); pool[i].g_live = 0; }
+  for (unsigned i = 0; i < NN; i++) dead_node(i);
   g_fresh = 0;
   struct ramq q; q._head = nondet_uptr(); q._tail = nondet_uptr();
   ram_ctor(&q);
   XV_OBL("ram.ctor.empty", g_alloc_count == 1 && q._head == NPTR(0) && q._tail == NPTR(0) && pool[0].g_live);
   XV_OBL("ram.ctor.empty", pool[0].pop_idx == 0 && pool[0].push_idx == 0 && pool[0].next == 0);
   for (unsigned s = 0; s < XV_E; s++) XV_OBL("ram.ctor.empty", pool[0].entries[s].value == 0);
-  XV_OBL("ram.inv.preserved", node_inv(&pool[0]));
+  XV_OBL("ram.inv.preserved", node_inv(&pool[0], 0, 0));
   XV_CANARY("ctor.reached");
 }
 
 unsigned in_len;
 void h_dtor(void) {
   reset_ghost(); g_dtor_stub = 1;          /* ~node has its own contract (h_node_dtor); here: which nodes are deleted, and how often */
-  for (unsigned i = 0; i < NN; i++) { havoc_node(&pool[i]); pool[i].next = 0; }
+  for (unsigned i = 0; i < NN; i++) { havoc_node(i); pool[i].next = 0; }
   in_len = nondet_uint(); XV_ASSUME(in_len >= 1 && in_len <= 3);
-  for (unsigned i = 0; i + 1 < in_len; i++) pool[i].next = NPTR(i + 1);
+  for (unsigned i = 0; i < 2; i++) if (i + 1 < in_len) pool[i].next = NPTR(i + 1);
   /* pool[in_len..] : nodes that are not in the list (e.g. retired, still waiting for reclamation) */
   struct ramq q; q._head = NPTR(0); q._tail = nondet_bool() ? NPTR(in_len - 1) : NPTR(in_len >= 2 ? in_len - 2 : 0);
   ram_dtor(&q);
@@ -347,15 +360,16 @@ uintptr_t in_val;
 static void setup_push_state(struct ramq* q) {
   /* pool[0] = the node _tail points to; pool[1] = its successor when the tail lags by one, otherwise an unrelated live node;
    * pool[2], pool[3] = free storage */
-  havoc_node(&pool[0]); havoc_node(&pool[1]);
+  havoc_node(0); havoc_node(1);
   XV_ASSUME(pool[0].next == 0 || pool[0].next == NPTR(1));
   XV_ASSUME(pool[1].next == 0);
-  for (unsigned i = 2; i < NN; i++) { havoc_words(&pool[i]); pool[i].g_live = 0; pool[i].g_retired = 0; pool[i].g_deleted = 0; }
+  dead_node(2); dead_node(3);
   g_fresh = 2;
   q->_tail = NPTR(0); q->_head = nondet_uptr();
   mon_q = q;
 }
-static void check_node_unchanged(const char* unused, const struct node* a, const struct node* b, int except_slot, _Bool push_idx_too) {
+/* node a (now) against node b (before): everything but entry except_slot and, unless push_idx_too, push_idx/next */
+static void check_node_unchanged(const struct node* a, const struct node* b, int except_slot, _Bool push_idx_too) {
   for (unsigned s = 0; s < XV_E; s++) if ((int)s != except_slot) XV_OBL("ram.push.frame", a->entries[s].value == b->entries[s].value);
   XV_OBL("ram.push.frame", a->pop_idx == b->pop_idx && a->g_retired == 0 && a->g_deleted == 0 && a->g_live);
   if (push_idx_too) XV_OBL("ram.push.frame", a->push_idx == b->push_idx && a->next == b->next);
@@ -364,49 +378,51 @@ void h_push(void) {
   reset_ghost();
   struct ramq q; setup_push_state(&q);
   struct node T0 = pool[0], N0 = pool[1]; uintptr_t head0 = q._head;
+  unsigned ptT = pre_pt[0], ptN = pre_pt[1];
   in_val = nondet_uptr(); XV_ASSUME((in_val & MARK63) == 0);
   g_trk_val = in_val;
   /* an arbitrary value already in the queue: (gn, gk) */
   unsigned gn = nondet_uint(), gk = nondet_uint(); XV_ASSUME(gn < 2 && gk < XV_E);
-  _Bool g_in = (gn == 0 || T0.next == NPTR(1)) && gk >= tickets(pool[gn].pop_idx) && IS_VALUE(pool[gn].entries[spec_slot(gk)].value);
+  _Bool g_in = (gn == 0 || T0.next == NPTR(1)) && gk >= pre_qt[gn] && IS_VALUE(pool[gn].entries[spec_slot(gk)].value);
   ram_push(&q, in_val);
   if (in_val == 0) {
     XV_OBL("ram.push.null_rejected", xv_threw == XV_EXC_std__invalid_argument && g_released == 0 && g_alloc_count == 0);
-    check_node_unchanged("", &pool[0], &T0, -1, 1); check_node_unchanged("", &pool[1], &N0, -1, 1);
+    check_node_unchanged(&pool[0], &T0, -1, 1); check_node_unchanged(&pool[1], &N0, -1, 1);
     XV_OBL("ram.push.frame", q._tail == NPTR(0) && q._head == head0);
     XV_CANARY("push.null");
     return;
   }
   XV_OBL("ram.push.accepts_once", xv_threw == 0);
-  unsigned kT = first_free(&T0), kN = first_free(&N0);
+  unsigned kT = first_free(&T0, ptT), kN = first_free(&N0, ptN);
   unsigned pn, pk; _Bool fresh = 0;           /* where the value must be now */
-  unsigned ptT = tickets(T0.push_idx), ptN = tickets(N0.push_idx);
+  unsigned ptT1 = ptT, ptN1 = ptN;            /* tickets handed out afterwards */
   if (kT < XV_E) {                             /* A: a free ticket in the tail node */
-    pn = 0; pk = kT;
+    pn = 0; pk = kT; ptT1 = kT + 1;
     XV_OBL("ram.push.slot", pool[0].entries[spec_slot(kT)].value == in_val && pool[0].push_idx == (kT + 1) * XV_STEP);
     XV_OBL("ram.push.slot", pool[0].next == T0.next && q._tail == NPTR(0) && g_alloc_count == 0);
-    check_node_unchanged("", &pool[0], &T0, (int)spec_slot(kT), 0); check_node_unchanged("", &pool[1], &N0, -1, 1);
+    check_node_unchanged(&pool[0], &T0, (int)spec_slot(kT), 0); check_node_unchanged(&pool[1], &N0, -1, 1);
     if (kT > ptT) XV_CANARY("push.slot_after_invalidated"); else XV_CANARY("push.slot");
   } else if (T0.next == 0) {                   /* B: tail node full (or every remaining ticket invalidated), no successor: append */
-    pn = 2; pk = 0; fresh = 1;
+    pn = 2; pk = 0; fresh = 1; ptT1 = (ptT > XV_E ? ptT : XV_E) + 1;
     XV_OBL("ram.push.new_node", pool[0].next == NPTR(2) && q._tail == NPTR(2));
-    XV_OBL("ram.push.new_node", pool[0].push_idx == ((ptT > XV_E ? ptT : XV_E) + 1) * XV_STEP);
-    check_node_unchanged("", &pool[0], &T0, -1, 0); check_node_unchanged("", &pool[1], &N0, -1, 1);
+    XV_OBL("ram.push.new_node", pool[0].push_idx == ptT1 * XV_STEP);
+    check_node_unchanged(&pool[0], &T0, -1, 0); check_node_unchanged(&pool[1], &N0, -1, 1);
     XV_CANARY("push.new_node");
   } else {                                     /* C/D: the tail lags by one: help it forward, then push there */
-    XV_OBL("ram.push.new_node", pool[0].push_idx == (ptT + 1) * XV_STEP && pool[0].next == NPTR(1));
-    check_node_unchanged("", &pool[0], &T0, -1, 0);
+    ptT1 = ptT + 1;
+    XV_OBL("ram.push.new_node", pool[0].push_idx == ptT1 * XV_STEP && pool[0].next == NPTR(1));
+    check_node_unchanged(&pool[0], &T0, -1, 0);
     if (kN < XV_E) {
-      pn = 1; pk = kN;
+      pn = 1; pk = kN; ptN1 = kN + 1;
       XV_OBL("ram.push.new_node", q._tail == NPTR(1) && g_alloc_count == 0 && pool[1].next == 0);
       XV_OBL("ram.push.slot", pool[1].entries[spec_slot(kN)].value == in_val && pool[1].push_idx == (kN + 1) * XV_STEP);
-      check_node_unchanged("", &pool[1], &N0, (int)spec_slot(kN), 0);
+      check_node_unchanged(&pool[1], &N0, (int)spec_slot(kN), 0);
       XV_CANARY("push.helped_tail");
     } else {
-      pn = 2; pk = 0; fresh = 1;
+      pn = 2; pk = 0; fresh = 1; ptN1 = (ptN > XV_E ? ptN : XV_E) + 1;
       XV_OBL("ram.push.new_node", pool[1].next == NPTR(2) && q._tail == NPTR(2));
-      XV_OBL("ram.push.new_node", pool[1].push_idx == ((ptN > XV_E ? ptN : XV_E) + 1) * XV_STEP);
-      check_node_unchanged("", &pool[1], &N0, -1, 0);
+      XV_OBL("ram.push.new_node", pool[1].push_idx == ptN1 * XV_STEP);
+      check_node_unchanged(&pool[1], &N0, -1, 0);
       XV_CANARY("push.helped_tail_new_node");
     }
   }
@@ -414,15 +430,15 @@ void h_push(void) {
     XV_OBL("ram.push.new_node", g_alloc_count == 1 && pool[2].g_live && pool[2].entries[0].value == in_val
            && pool[2].pop_idx == 0 && pool[2].push_idx == XV_STEP && pool[2].next == 0 && pool[2].g_retired == 0 && pool[2].g_deleted == 0);
     for (unsigned s = 1; s < XV_E; s++) XV_OBL("ram.push.new_node", pool[2].entries[s].value == 0);
-    XV_OBL("ram.inv.preserved", node_inv(&pool[2]));
+    XV_OBL("ram.inv.preserved", node_inv(&pool[2], 1, 0));
   } else {
     XV_OBL("ram.push.frame", !pool[2].g_live);
   }
   XV_OBL("ram.push.frame", q._head == head0 && g_delete_count == 0 && !pool[3].g_live && g_get_count == 0);
-  XV_OBL("ram.inv.preserved", node_inv(&pool[0]) && node_inv(&pool[1]) && node_at(q._tail)->next == 0);
+  XV_OBL("ram.inv.preserved", node_inv(&pool[0], ptT1, pre_qt[0]) && node_inv(&pool[1], ptN1, pre_qt[1]) && NODE_P(node_idx(q._tail))->next == 0);
   /* C07: the caller's object gave up ownership exactly once, and the value was not destroyed */
   XV_OBL("ram.push.accepts_once", g_released == 1 && g_valdel == 0 && g_del_total == 0);
-  /* FIFO: every value that was in the queue is in front of the new one (node order, then ticket order) and untouched */
+  /* FIFO: every value that was in the queue is in front of the new one (node order, then ticket order) */
   if (g_in) {
     XV_OBL("ram.push.fifo", gn < pn || (gn == pn && gk < pk));
     XV_CANARY("push.fifo_witness");
@@ -432,11 +448,11 @@ void h_push(void) {
 /* =========================== pop, sequential (C04 + C07) =========================== */
 static void setup_pop_state(struct ramq* q) {
   /* list pool[0] -> pool[1] -> pool[2] (a prefix of it), head = pool[0]; pool[3] not live */
-  for (unsigned i = 0; i < 3; i++) havoc_node(&pool[i]);
+  for (unsigned i = 0; i < 3; i++) havoc_node(i);
   XV_ASSUME(pool[0].next == 0 || pool[0].next == NPTR(1));
   XV_ASSUME(pool[1].next == 0 || pool[1].next == NPTR(2));
   XV_ASSUME(pool[2].next == 0);
-  havoc_words(&pool[3]); pool[3].g_live = 0; pool[3].g_retired = 0; pool[3].g_deleted = 0;
+  dead_node(3);
   g_fresh = 3;
   q->_head = NPTR(0); q->_tail = nondet_uptr();
   mon_q = q;
@@ -450,40 +466,43 @@ void h_pop(void) {
   struct node pre[3] = { pool[0], pool[1], pool[2] }; uintptr_t tail0 = q._tail;
   unsigned gn = nondet_uint(), gk = nondet_uint(); XV_ASSUME(gn < 3 && gk < XV_E);
   marked_value gw = pre[gn].entries[spec_slot(gk)].value;
-  _Bool g_in = listed(pre, gn) && gk >= tickets(pre[gn].pop_idx) && IS_VALUE(gw);     /* (gn, gk) is an element of the abstract queue */
+  _Bool g_in = listed(pre, gn) && gk >= pre_qt[gn] && IS_VALUE(gw);     /* (gn, gk) is an element of the abstract queue */
   optval r = ram_pop(&q);
   /* the head moves forward along the list; every node left behind is retired exactly once, no other */
   XV_OBL("ram.pop.next_node", is_nptr(q._head) && nidx(q._head) < 3 && listed(pre, nidx(q._head)));
   unsigned hp = nidx(q._head) % 3;
+  unsigned qt1[3];                              /* pop tickets handed out afterwards */
   for (unsigned i = 0; i < 3; i++) {
+    unsigned d = drawn(pre[i].pop_idx, pool[i].pop_idx);
+    XV_OBL("ram.pop.frame", d != BAD_T && (i <= hp || d == 0));
+    qt1[i] = pre_qt[i] + d;
     XV_OBL("ram.pop.next_node", pool[i].g_retired == (i < hp ? 1u : 0u) && pool[i].g_deleted == 0 && pool[i].g_live);
-    if (i < hp) XV_OBL("ram.pop.next_node", tickets(pool[i].pop_idx) > XV_E);   /* left only after a ticket beyond the node was drawn */
+    if (i < hp) XV_OBL("ram.pop.next_node", qt1[i] > XV_E);   /* left only after a ticket beyond the node was drawn */
     XV_OBL("ram.pop.frame", pool[i].push_idx == pre[i].push_idx && pool[i].next == pre[i].next);
-    XV_OBL("ram.pop.frame", pool[i].pop_idx >= pre[i].pop_idx && (i <= hp || pool[i].pop_idx == pre[i].pop_idx));
-    XV_OBL("ram.inv.preserved", node_inv(&pool[i]));
+    XV_OBL("ram.inv.preserved", node_inv(&pool[i], pre_pt[i], qt1[i]));
   }
   XV_OBL("ram.pop.frame", q._tail == tail0 && g_alloc_count == 0 && g_delete_count == 0 && !pool[3].g_live && g_released == 0 && g_del_total == 0);
-  unsigned rk = tickets(pool[hp].pop_idx) - 1;
   /* entries: values are never modified (a consumed value stays where it is); a free entry whose ticket was drawn becomes INVALID */
   for (unsigned i = 0; i < 3; i++) for (unsigned k = 0; k < XV_E; k++) {
     marked_value a = pre[i].entries[spec_slot(k)].value, b = pool[i].entries[spec_slot(k)].value;
-    _Bool drawn = i <= hp && k >= tickets(pre[i].pop_idx) && k < tickets(pool[i].pop_idx);
-    if (drawn && a == 0) XV_OBL("ram.pop.invalidate", b == INVALID);
+    _Bool was_drawn = i <= hp && k >= pre_qt[i] && k < qt1[i];
+    if (was_drawn && a == 0) XV_OBL("ram.pop.invalidate", b == INVALID);
     else XV_OBL("ram.pop.frame", b == a);
   }
+  unsigned rk = qt1[hp] - 1;
   if (r.has) {
-    XV_OBL("ram.pop.slot", tickets(pool[hp].pop_idx) >= 1 && rk < XV_E && rk >= tickets(pre[hp].pop_idx));
-    XV_OBL("ram.pop.slot", IS_VALUE(pre[hp].entries[spec_slot(rk % XV_E)].value) && r.v == pre[hp].entries[spec_slot(rk % XV_E)].value);
+    XV_OBL("ram.pop.slot", qt1[hp] >= 1 && rk < XV_E && rk >= pre_qt[hp]);
+    XV_OBL("ram.pop.slot", IS_VALUE(pre[hp].entries[spec_slot(rk)].value) && r.v == pre[hp].entries[spec_slot(rk)].value);
     XV_OBL("ram.pop.hands_over_once", g_get_count == 1 && g_get_val == r.v);
     if (g_in) {
-      XV_OBL("ram.pop.fifo", !(gn < hp || (gn == hp && gk < rk)));                       /* nothing that was in the queue is in front of the returned value */
-      if (!(gn == hp && gk == rk)) XV_OBL("ram.pop.fifo", gk >= tickets(pool[gn].pop_idx)); /* and everything else is still in the queue */
+      XV_OBL("ram.pop.fifo", !(gn < hp || (gn == hp && gk < rk)));               /* nothing that was in the queue is in front of the returned value */
+      if (!(gn == hp && gk == rk)) XV_OBL("ram.pop.fifo", gk >= qt1[gn]);         /* and everything else is still in the queue */
       XV_CANARY("pop.fifo_witness");
     }
     if (hp > 0) XV_CANARY("pop.value_next_node");
     if (hp == 2) XV_CANARY("pop.value_third_node");
-    if (rk > tickets(pre[hp].pop_idx)) XV_CANARY("pop.value_after_invalidating");
-    if (hp == 0 && rk == tickets(pre[0].pop_idx)) XV_CANARY("pop.value");
+    if (rk > pre_qt[hp]) XV_CANARY("pop.value_after_invalidating");
+    if (hp == 0 && rk == pre_qt[0]) XV_CANARY("pop.value");
   } else {
     XV_OBL("ram.pop.empty", !g_in);                  /* 'empty' only if there was no value in the queue */
     XV_OBL("ram.pop.hands_over_once", g_get_count == 0);
@@ -510,18 +529,18 @@ void h_try_pop(void) {
 
 /* =========================== INT: one iteration under arbitrary interference =========================== */
 static void havoc_shared(void) {
-  /* every shared cell gets an arbitrary well-typed value; nodes that are private to this thread (allocated, not yet published) are left alone */
+  /* every shared cell gets an arbitrary well-typed value; a node that is private to this thread (allocated, not yet published) is left alone */
+  _Bool have_private = g_alloc_count > g_delete_count && !it_link_ok;
   for (unsigned i = 0; i < NN; i++) {
     if (!pool[i].g_live) continue;
-    if (g_alloc_count > g_delete_count && NPTR(i) == g_last_alloc && !it_link_ok) continue;
-    pool[i].pop_idx = nondet_uint() * XV_STEP; pool[i].push_idx = nondet_uint() * XV_STEP;
-    XV_ASSUME(tickets(pool[i].pop_idx) < MAXT && tickets(pool[i].push_idx) < MAXT);
+    if (have_private && NPTR(i) == g_last_alloc) continue;
+    pool[i].pop_idx = nondet_uint(); pool[i].push_idx = nondet_uint();
     uintptr_t nx = nondet_uptr(); XV_ASSUME(nx == 0 || (is_nptr(nx) && pool[nidx(nx) % NN].g_live && nidx(nx) != i)); pool[i].next = nx;
     for (unsigned s = 0; s < XV_E; s++) { marked_value w = nondet_uptr(); XV_ASSUME(IS_ENTRY_WORD(w)); pool[i].entries[s].value = w; }
   }
   uintptr_t hd = nondet_uptr(), tl = nondet_uptr();
   XV_ASSUME(is_nptr(hd) && pool[nidx(hd) % NN].g_live && is_nptr(tl) && pool[nidx(tl) % NN].g_live);
-  XV_ASSUME(!(g_alloc_count > g_delete_count && !it_link_ok && (hd == g_last_alloc || tl == g_last_alloc)));
+  XV_ASSUME(!(have_private && (hd == g_last_alloc || tl == g_last_alloc)));
   mon_q->_head = hd; mon_q->_tail = tl;
 }
 #ifdef XV_INT
@@ -529,15 +548,15 @@ _Bool env_on; int env_kind; _Bool env_linked;
 void xv_env(void) {
   if (!env_on) return;
   if (env_kind == 0) { if (nondet_bool()) havoc_shared(); return; }      /* rely: anything well-typed */
-  /* env_kind 1: one competing producer B: links its node pool[1] behind the full tail node pool[0], later swings the tail */
+  /* env_kind 1: one competing producer B: draws a ticket on the full tail node pool[0], links its node pool[1] behind it, later swings the tail */
   if (!env_linked) {
-    if (nondet_bool() && pool[0].next == 0 && tickets(pool[0].push_idx) >= XV_E) { pool[0].next = NPTR(1); pool[0].push_idx += XV_STEP; env_linked = 1; }
+    if (nondet_bool() && pool[0].next == 0 && pool[0].push_idx >= max_idx) { pool[0].next = NPTR(1); pool[0].push_idx += XV_STEP; env_linked = 1; }
   } else if (nondet_bool() && mon_q->_tail == NPTR(0)) mon_q->_tail = NPTR(1);
 }
 #endif
 static void setup_int(struct ramq* q) {
   for (unsigned i = 0; i < 3; i++) { pool[i].g_live = 1; pool[i].g_retired = 0; pool[i].g_deleted = 0; }
-  havoc_words(&pool[3]); pool[3].g_live = 0; pool[3].g_retired = 0; pool[3].g_deleted = 0; g_fresh = 3;
+  dead_node(3); g_fresh = 3;
   mon_q = q; havoc_shared();
 }
 void h_push_int(void) {
@@ -564,7 +583,7 @@ void h_pop_int(void) {
   env_on = 0;
   if (r.has) {
     /* the value handed out was read from (or exchanged out of) the entry of the ticket drawn in this iteration */
-    XV_OBL("ram.pop.commit", it_ticket_drawn && it_ticket < XV_E && it_entry_addr != 0 && IS_VALUE(it_entry_seen) && r.v == it_entry_seen);
+    XV_OBL("ram.pop.commit", IT_HAS_TICKET && it_entry_addr != 0 && IS_VALUE(it_entry_seen) && r.v == it_entry_seen);
     XV_OBL("ram.pop.hands_over_once", g_get_count == 1 && g_get_val == r.v && it_head_cas == 0 && it_reclaims == 0);
     if (it_entry_xchg) XV_CANARY("pop_int.value_by_exchange"); else XV_CANARY("pop_int.value_by_load");
   } else {
@@ -580,10 +599,10 @@ void h_push_rollback(void) {
 #ifdef XV_INT
   reset_ghost();
   struct ramq q;
-  /* pool[0]: the tail node, full, no successor yet.  pool[1]: the node producer B is about to link (holds B's value).  pool[2], pool[3]: free */
-  havoc_node(&pool[0]); XV_ASSUME(pool[0].next == 0 && first_free(&pool[0]) == XV_E);
-  havoc_node(&pool[1]); XV_ASSUME(pool[1].next == 0);
-  for (unsigned i = 2; i < NN; i++) { havoc_words(&pool[i]); pool[i].g_live = 0; pool[i].g_retired = 0; pool[i].g_deleted = 0; }
+  /* pool[0]: the tail node, no successor yet.  pool[1]: the node producer B is about to link (holds B's value).  pool[2], pool[3]: free */
+  havoc_node(0); XV_ASSUME(pool[0].next == 0);
+  havoc_node(1); XV_ASSUME(pool[1].next == 0);
+  dead_node(2); dead_node(3);
   g_fresh = 2; q._tail = NPTR(0); q._head = nondet_uptr(); mon_q = &q; uintptr_t head0 = q._head;
   struct node T0 = pool[0], N0 = pool[1];
   in_val = nondet_uptr(); XV_ASSUME(in_val != 0 && (in_val & MARK63) == 0); g_trk_val = in_val; g_raw = in_val;
@@ -592,22 +611,22 @@ void h_push_rollback(void) {
   env_on = 0;
   XV_OBL("ram.push.rollback", xv_threw == 0 && g_released >= 1);
   XV_OBL("ram.push.rollback", g_valdel == 0 && g_del_total == 0);                        /* nothing destroyed */
-  /* the value is in exactly one entry of a node of the list */
+  /* the value is in exactly one entry of a live node */
   unsigned places = 0;
   for (unsigned i = 0; i < NN; i++) for (unsigned s = 0; s < XV_E; s++) {
     _Bool was = (i == 0 && T0.entries[s].value == in_val) || (i == 1 && N0.entries[s].value == in_val);
     if (pool[i].g_live && pool[i].entries[s].value == in_val && !was) places++;
   }
   XV_OBL("ram.push.rollback", places == 1);
-  if (env_linked && g_alloc_count > 0 && pool[2].g_deleted) {
+  if (pool[2].g_deleted) {
     /* lost the race: our first node was never published and has been deleted exactly once */
-    XV_OBL("ram.push.rollback", pool[2].g_deleted == 1 && !pool[2].g_live && pool[0].next == NPTR(1) && pool[1].next != NPTR(2) && q._tail != NPTR(2));
+    XV_OBL("ram.push.rollback", env_linked && pool[2].g_deleted == 1 && !pool[2].g_live && pool[0].next == NPTR(1) && pool[1].next != NPTR(2) && q._tail != NPTR(2));
     XV_OBL("ram.push.rollback", g_delete_count == 1);
     if (g_alloc_count == 2) {
       XV_OBL("ram.push.rollback", pool[3].g_live && pool[3].entries[0].value == in_val && pool[1].next == NPTR(3) && q._tail == NPTR(3));
       XV_CANARY("rollback.second_node");
     } else {
-      XV_OBL("ram.push.rollback", q._tail == NPTR(1) && pool[1].entries[spec_slot(first_free(&N0) % XV_E)].value == in_val);
+      XV_OBL("ram.push.rollback", g_alloc_count == 1 && q._tail == NPTR(1) && pool[1].entries[spec_slot(first_free(&N0, pre_pt[1]) % XV_E)].value == in_val);
       XV_CANARY("rollback.stored_in_winner_node");
     }
     XV_CANARY("rollback.lost_race");
@@ -615,7 +634,7 @@ void h_push_rollback(void) {
     XV_OBL("ram.push.rollback", g_delete_count == 0);
     if (env_linked) XV_CANARY("rollback.helped"); else XV_CANARY("rollback.no_race");
   }
-  for (unsigned s = 0; s < XV_E; s++) XV_OBL("ram.push.rollback", pool[0].entries[s].value == T0.entries[s].value);
+  for (unsigned s = 0; s < XV_E; s++) if (T0.entries[s].value != 0) XV_OBL("ram.push.rollback", pool[0].entries[s].value == T0.entries[s].value);
   XV_OBL("ram.push.rollback", q._head == head0 && pool[0].g_live && pool[1].g_live && pool[0].g_retired == 0 && pool[1].g_retired == 0);
 #endif
 }
